@@ -84,8 +84,9 @@ class Ctx:
 
 class Subcheck:
     def __init__(self, prop, name, run, strategy=None, enumerate_=None, quick=0, thorough=0,
-                 shards=16, doc="", setup=None, crash_guard=False):
+                 shards=16, doc="", setup=None, crash_guard=False, fuzz=None):
         self.crash_guard = crash_guard
+        self.fuzz = fuzz           # fuzz(case_bytes) -> case : decoder for the atheris (coverage-guided) driver
         self.prop, self.name, self.run = prop, name, run
         self.strategy, self.enumerate = strategy, enumerate_
         self.budget = {"quick": quick, "thorough": thorough}
@@ -95,10 +96,10 @@ class Subcheck:
 
 
 def subcheck(prop, name, strategy=None, enumerate_=None, quick=0, thorough=0, shards=16, doc="",
-             setup=None, crash_guard=False):
+             setup=None, crash_guard=False, fuzz=None):
     def deco(fn):
         REGISTRY.setdefault(prop, {})[name] = Subcheck(prop, name, fn, strategy, enumerate_,
-                                                       quick, thorough, shards, doc, setup, crash_guard)
+                                                       quick, thorough, shards, doc, setup, crash_guard, fuzz)
         return fn
     return deco
 
@@ -269,7 +270,10 @@ def _worker(args):
         sc = REGISTRY[prop][name]
         if sc.setup:
             sc.setup()
-        if sc.enumerate is not None:
+        if sc.fuzz is not None:
+            from . import fuzzdrv
+            fuzzdrv.run_fuzz_shard(sc, st, n, derive_seed(seed, prop, name, shard) % (2 ** 31 - 1) + 1, tier, known_active, shard)
+        elif sc.enumerate is not None:
             it = itertools.islice(sc.enumerate(tier), shard, None, nshards)
             for case in it:
                 status, ctx, info = execute(sc, case, known_active)
